@@ -213,9 +213,7 @@ class C06Monitor:
         from the components' records, so it is asked again later (time 0, the middle, a rotating time)."""
         hist = self.__dict__.setdefault("idx_hist", {})
         for m in self.sim.markets:
-            if not hasattr(m, "get_index"):
-                continue
-            for name in INDEX_SCALARS:
+            for name in (INDEX_SCALARS if hasattr(m, "get_index") else []) + ["get_vwap"]:
                 f = getattr(m, name, None)
                 if f is None:
                     continue
